@@ -1,6 +1,7 @@
 """C20 - the chain-sync client keeps listeners on one consistent chain at the best tip (structural part)."""
 from engine import *
 import provenance
+import mutations
 
 BS = 'lightning_block_sync::'
 POLL = BS + 'poll::'
@@ -660,3 +661,4 @@ RULES = [
 	('20.y', 'no reviewed function gained a swallowed error (the Result of a fallible in-crate call dropped; rules/provenance.py)', lambda F: provenance.dr_for_property(F, 'C20', '20.y')),
 ]
 RULES.append(('20.t', 'identity comparisons: every reviewed (function, identity type) == / != comparison (HTLCSource, Txid, OutPoint, ChannelId, PaymentHash, PublicKey, ...) is still made - a function does not silently change what it matches by (rules/provenance.py)', lambda F: provenance.ids_for_property(F, 'C20', '20.t')))
+RULES.append(('20.M', 'collection mutations: every reviewed (function, stored collection, mutator class: add / remove / filter / empty / swap / order) triple is still present - an entry that is no longer removed, inserted or drained on one path (rules/mutations.py)', lambda F: mutations.for_property(F, 'C20', '20.M')))
